@@ -1,7 +1,8 @@
 (* Property C04 -- theorems only. *)
 From Coq Require Import Reals List Arith.
 From NV Require Import Base.RealExtra Gen.ModelFuncs Model.FitCore Proofs.WeightsP Proofs.FitCoreP
-     Proofs.ScalingP.
+     Proofs.ScalingP Model.FitOutcome Proofs.FitOutcomeP.
+Import ListNotations.
 Local Open Scope R_scope.
 
 (* contact-point weights (generated from compute_contact_point_weights):
@@ -38,3 +39,64 @@ Proof. exact unscale. Qed.
 (* the too-few-points guard: a fit is attempted iff varied + 1 < points *)
 Theorem C04_too_few_points : forall v n, enough_points v n = true <-> (v + 1 < n)%nat.
 Proof. exact enough_points_spec. Qed.
+
+(* what a fit of one or more passes (absolute range: one; `relative cp`: four;
+   plateau search: many) leaves behind is decided by its last pass alone: if
+   that pass could be done, exactly what the optimiser returned for it (the
+   columns filled on the segment, NaN elsewhere); if not, NaN columns, success
+   False and no parameters, chi-square or xmin/xmax -- whatever earlier passes
+   or earlier fits had stored.  The optimiser is an oracle (every pass carries
+   what it would return). *)
+Theorem C04_outcome_is_last_pass : forall (P T : Type) seg (s : fstate P T) ps p,
+  (enough_points (p_varied p) (p_points p) = true ->
+     fit_outcome seg s (ps ++ [p]) = stored P T seg p) /\
+  (enough_points (p_varied p) (p_points p) = false ->
+     fit_outcome seg s (ps ++ [p]) = nothing P T seg).
+Proof.
+  intros P T seg s ps p. split.
+  - exact (outcome_last_done P T seg s ps p).
+  - exact (outcome_last_refused P T seg s ps p).
+Qed.
+
+Theorem C04_unsuccessful_leaves_nothing : forall (P T : Type) seg (s : fstate P T) ps,
+  ps <> [] -> f_success (fit_outcome seg s ps) = false ->
+  fit_outcome seg s ps = nothing P T seg.
+Proof. exact unsuccessful_leaves_nothing. Qed.
+
+Theorem C04_outcome_independent_of_history : forall (P T : Type) seg (s s' : fstate P T) ps,
+  ps <> [] -> fit_outcome seg s ps = fit_outcome seg s' ps.
+Proof. exact outcome_independent_of_history. Qed.
+
+(* the final clean-up in fit_model is what makes this true: the fitter alone
+   keeps the results of an earlier pass when the last one is refused *)
+Theorem C04_cleanup_needed : forall (P T : Type) seg (s : fstate P T) p q,
+  enough_points (p_varied p) (p_points p) = true ->
+  enough_points (p_varied q) (p_points q) = false ->
+  f_fitted (run_passes seg s [p; q]) = Some (o_params (p_opt p)).
+Proof. exact run_passes_keeps_stale. Qed.
+
+(* the columns: NaN outside the segment, the optimiser's values on it *)
+Theorem C04_columns_on_segment : forall (T : Type) seg (v : list T),
+  length (scatter seg v) = length seg /\
+  (forall i, nth i seg false = false -> nth i (scatter seg v) None = None) /\
+  (forall i d, nth i seg false = true -> length v = count seg ->
+     nth i (scatter seg v) None = Some (nth (count (firstn i seg)) v d)) /\
+  (forall i, nth i (@blank T seg) None = None).
+Proof.
+  intros T seg v. repeat split.
+  - apply scatter_length.
+  - intros i. apply scatter_outside.
+  - intros i d. apply scatter_inside.
+  - intros i. apply blank_nth.
+Qed.
+
+(* non-vacuity: a four-pass fit whose last pass is refused, after a good fit *)
+Example C04_outcome_inhabited :
+  let o n := mkO n n [n; n] [n; n] n n in
+  let good n := mkP 2 10 (o n) in
+  let s0 := stored nat nat [true; true; false] (good 9%nat) in
+  fit_outcome [true; true; false] s0 [good 1; good 2; good 3; mkP 2 3 (o 4)]%nat
+    = nothing nat nat [true; true; false] /\
+  fit_outcome [true; true; false] s0 [good 1; mkP 2 3 (o 2); good 3]%nat
+    = stored nat nat [true; true; false] (good 3%nat).
+Proof. split; reflexivity. Qed.
